@@ -20,7 +20,8 @@ def methodFragment (did given : Str) : Option Str :=
   | .ok base =>
     match join base (fragmentSegment given) with
     | .ok u =>
-      match u.fragment with
+      -- the model's `DidUrl.fragment` keeps the delimiter (as the library's field does); `fragment()` drops it
+      match u.fragment.map (stripPrefix1 35) with
       | some f => if f.isEmpty then none else some f
       | none => none
     | _ => none
